@@ -79,6 +79,23 @@ VARIANTS = [
     V( 'object-generic-request-takes-replies', DEVICE, "elif cls.SV_COD_CTX in data and data.get( 'service' ) and not data.service & 0x80:", "elif cls.SV_COD_CTX in data and data.get( 'service' ):", fires=[ 'L-OBJREPLY' ], why='defect CX' ),
     V( 'object-reply-data-looked-up-regardless', DEVICE, "if data.status == 0x00 and 'get_attribute_single' in data:", "if data.status == 0x00:", fires=[ 'L-OBJREPLY' ], why='defect CX' ),
     V( 'gal-reply-without-count', DEVICE, "result += UINT.produce( len( data.get_attribute_list )) # number of attribute responses\n", "", fires=[ 'L-GALREPLY' ], why='defect CY' ),
+    V( 'offset-seconds-sixty-refused', TIMES, "offset = 0\n for v in hms:\n offset = offset * 60 + float( v )", "offset		= float( hms[0] )\n        for v in map( float, hms[1:] ):\n            assert 0 <= v < 60\n            offset	= offset * 60 + v", fires=[ 'T-OFFSET' ] ),
+    V( 'offset-terms-summed-from-the-right', TIMES, "offset = 0\n for v in hms:\n offset = offset * 60 + float( v )", "offset		= sum( float( v ) * 60 ** k for k,v in enumerate( reversed( hms )))", silent=[ 'T-OFFSET' ] ),
+    V( 'duration-one-millisecond-vanishes', TIMES, "is_ms = microseconds // 1000 > 0", "is_ms			= microseconds > 1000", fires=[ 'T-DURTEXT' ] ),
+    V( 'duration-ms-flag-by-comparison', TIMES, "is_ms = microseconds // 1000 > 0", "is_ms			= microseconds >= 1000", silent=[ 'T-DURTEXT' ] ),
+    V( 'apidict-setdefault-returns-its-argument', DOT, "was = super( apidict_base, self ).setdefault( key, default )\n self._cnd.wait( self._tmo )\n return was", "was			= super( apidict_base, self ).setdefault( key, default )\n            self._cnd.wait( self._tmo )\n            return default", fires=[ 'D-SETDEFAULT' ] ),
+    V( 'copy-only-pure-level-lists', DOT, "[ copy.copy( e ) for e in v ] if isinstance( v, list ) else copy.copy( v ))", "[ copy.copy( e ) for e in v ] if isinstance( v, list ) and all( isinstance( e, dotdict_base ) for e in v ) else copy.copy( v ))", fires=[ 'D-COPYLIST' ] ),
+    V( 'copy-list-by-map', DOT, "[ copy.copy( e ) for e in v ] if isinstance( v, list ) else copy.copy( v ))", "list( map( copy.copy, v )) if isinstance( v, list ) else copy.copy( v ))", silent=[ 'D-COPYLIST' ] ),
+    V( 'tnet-float-payload-pattern', TNETS, "elif payload_type == b'^':\n value = float(payload)", "elif payload_type == b'^':\n        assert payload.lstrip( b'-' )[:1].isdigit(), payload\n        value = float(payload)", fires=[ 'T-TNETNUM' ] ),
+    V( 'modbus-read-untruncated', MODBUS, "return values[:count] if count > 1 else values[0]", "return values if count > 1 else values[0]", fires=[ 'M-READCOUNT' ] ),
+    V( 'modbus-read-truncated-by-list', MODBUS, "return values[:count] if count > 1 else values[0]", "return list( values )[0:count] if count != 1 else values[0]", silent=[ 'M-READCOUNT' ] ),
+    V( 'setup-tag-pops-before-store', LOGIX, "instance = lookup( cls, ins )\n if not new:", "instance		= lookup( cls, ins )\n            instance.attribute.pop( str( att ), None )\n            if not new:", fires=[ 'W-ATTRTABLE' ] ),
+    V( 'udp-log-line-asks-fresh-entry', MAIN, "now - brx, wait, stats_for( frm )[0] )", "now - brx, wait, stats_for( frm, fresh=True )[0] )", fires=[ 'R-ISO' ] ),
+    V( 'harvest-empty-context-matches', CLIENT, "assert rpy_ctx == req_ctx and rpy.service == req.service | 0x80, \\\n", "assert rpy_ctx in ( req_ctx, b'' ) and rpy.service == req.service | 0x80, \\\n", fires=[ 'P-MATCH' ] ),
+    V( 'harvest-pairing-test-reordered', CLIENT, "assert rpy_ctx == req_ctx and rpy.service == req.service | 0x80, \\\n", "assert req.service | 0x80 == rpy.service and not rpy_ctx != req_ctx, \\\n", silent=[ 'P-MATCH' ] ),
+    V( 'bundle-status-from-members', DEVICE, "r.input = bytearray( Object.produce( r ))\n data.status = 0x00", "r.input	= bytearray( Object.produce( r ))\n                data.status	= 0x1E if any( m.get( 'status' ) for m in data.multiple.request ) else 0x00", fires=[ 'P-EACH' ] ),
+    V( 'load-complete-without-queue-test', HFILES, "self.state = self.EXHAUSTED, \"Playback completing: %s\" % exc", "if not self.lookahead:\n                    self.state	= self.COMPLETE, \"Playback complete: %s\" % exc\n                    continue\n                self.state	= self.EXHAUSTED, \"Playback completing: %s\" % exc", fires=[ 'H-LOAD' ] ),
+    V( 'close-switches-dialect-under-lock', CLIENT, "dialect_bak,self.dialect= getattr( self, 'dialect', None ),device.Connection_Manager\n try:", "dialect_bak		= getattr( self, 'dialect', None )\n        try:\n            with self:\n                self.dialect	= device.Connection_Manager", fires=[ 'P-GATEWAY' ] ),
     V( 'struct-index-not-scaled', AUTO, "beg = self.offset + self.index * siz", "beg			= self.offset + self.index", fires=[ 'T-TYPES' ] ),
     V( 'struct-class-format-compiled', AUTO, "self._struct = struct.Struct( self.struct_format )", "self._struct		= struct.Struct( type( self ).struct_format )", fires=[ 'T-TYPES' ] ),
     V( 'struct-unpack-at-offset', AUTO, "buf = data[ours+self._input][beg:end]\n val = self._struct.unpack_from( buffer=buf )[0]",
